@@ -378,6 +378,8 @@ func mutateJSON(r *rng.R, doc []byte) [][]byte {
 
 var injectedChildRe = regexp.MustCompile(` ?\(S 5505025 \(S 5505026 \(I 5505027 1\)\) \([A-Z] [0-9]+ [^()]*\)\)`)
 
+var injectedLeafRe = regexp.MustCompile(` ?\(I 5505028 2\)`)
+
 var (
 	xmlCloseRe = regexp.MustCompile(`</[A-Za-z][A-Za-z0-9_]*>\s*`)
 	xmlLeafRe  = regexp.MustCompile(`^<[A-Za-z][A-Za-z0-9_]*( [a-z]+="[^"]*")*/>`)
@@ -396,6 +398,17 @@ func smuggleXML(r *rng.R, doc []byte) [][]byte {
 			continue
 		}
 		inj := `<TTLV tag="0x540001"><TTLV tag="0x540002"><TTLV tag="0x540003" type="Integer" value="1"/></TTLV>` + string(follow) + `</TTLV>`
+		// the unknown structure alone, or among other unknown elements: a reader that skips only ONE element its
+		// caller left unread (or only leaves, or only the first) hands the content of the next one to the parent
+		const leaf = `<TTLV tag="0x540004" type="Integer" value="2"/>`
+		switch k % 4 {
+		case 1:
+			inj = leaf + inj
+		case 2:
+			inj = leaf + leaf + inj
+		case 3:
+			inj = leaf + inj + leaf
+		}
 		m := append([]byte{}, doc[:l[0]]...)
 		m = append(m, inj...)
 		m = append(m, doc[l[0]:]...)
@@ -423,6 +436,7 @@ func textSmuggleCase(ctx *Ctx, tg planTarget, doc, injected []byte) {
 	want, got := dec(doc), dec(injected)
 	// inside generically decoded (opaque) content the injected element is legitimately kept as a child: drop it
 	got = injectedChildRe.ReplaceAllString(got, "")
+	got = injectedLeafRe.ReplaceAllString(got, "")
 	if want != got {
 		ctx.Res.Violate(report.Violation{Property: "C02", Oracle: "structure-extent", Key: "xml:nested-content-leaks-into-parent", Detail: "an unknown nested structure changes the decoded value: " + firstDiff(want, got), Line: line})
 	}
